@@ -54,6 +54,7 @@ import tempfile
 import unicodedata
 from typing import Any, Dict, List, Optional, Sequence, Tuple
 
+from engines import c31decode as D
 from engines import peglite as P
 from engines import pyfacts as pf
 from engines import relang as R
@@ -343,6 +344,55 @@ def emitted_language(units: List[Unit], delim: str, label: str) -> R.Lang:
     return R.lang(R.seq(R.lit(delim), R.star(R.alt(*[u.regex() for u in units])), R.lit(delim)), label)
 
 
+def decode_with(units: List[Unit], text: str) -> Optional[str]:
+    """The string whose rendering with OUR unit table (fixed-width units) is `text`, read unit by unit; None when there is none or
+    more than one reading."""
+    out: List[str] = []
+    i = 0
+    while i < len(text):
+        hits = []
+        for u in units:
+            if len(u.parts) == 1 and u.parts[0][0] == 'self':
+                if u.lo <= ord(text[i]) <= u.hi:
+                    hits.append((chr(ord(text[i])), 1))
+                continue
+            n = len(u.output(u.lo))
+            if len(u.output(u.hi)) != n:
+                return None
+            piece = text[i:i + n]
+            if len(piece) < n:
+                continue
+            if u.lo == u.hi:
+                if u.output(u.lo) == piece:
+                    hits.append((chr(u.lo), n))
+                continue
+            # one numeral: read it back
+            pos = 0
+            val = None
+            ok = True
+            for p in u.parts:
+                if p[0] == 'lit':
+                    ok = ok and piece.startswith(p[1], pos)
+                    pos += len(p[1])
+                elif p[0] == 'hex':
+                    w = n - sum(len(q[1]) for q in u.parts if q[0] == 'lit')
+                    digs = piece[pos:pos + w]
+                    pos += w
+                    if not digs or any(ch not in ('0123456789ABCDEF' if p[2] else '0123456789abcdef') for ch in digs):
+                        ok = False
+                    else:
+                        val = int(digs, 16)
+                else:
+                    ok = False
+            if ok and val is not None and u.lo <= val <= u.hi and u.output(val) == piece:
+                hits.append((chr(val), n))
+        if len(hits) != 1:
+            return None
+        out.append(hits[0][0])
+        i += hits[0][1]
+    return ''.join(out)
+
+
 def encode_with(units: List[Unit], s: str) -> str:
     out = []
     for ch in s:
@@ -572,14 +622,26 @@ class EscapeStr:
         post = fn.body[fn.body.index(self.loop) + 1:]
         self.buf = None
         self.dicts: Dict[str, Dict[str, str]] = {}
+        self.pre: List[ast.stmt] = []   # the decision list in front of the loop (early exits), in order
+        for n in pf.walk_shallow(fn):
+            if isinstance(n, ast.Name) and isinstance(n.ctx, (ast.Store, ast.Del)) and n.id in params:
+                raise AnalysisError(f'{m.rel}::escape_str: the parameter {n.id} is rebound')
         for st in pre:
             if isinstance(st, ast.Expr) and isinstance(st.value, ast.Constant):
+                continue
+            if isinstance(st, ast.If):
+                # an early exit (fast path): decided per value of `backticked` by exits()
+                self.pre.append(st)
                 continue
             ctx.need(isinstance(st, ast.Assign) and len(st.targets) == 1 and isinstance(st.targets[0], ast.Name),
                      f'{m.rel}::escape_str: unrecognised statement before the loop `{pf.nsrc(st)[:60]}`')
             tgt, v = st.targets[0].id, st.value  # type: ignore[union-attr]
             if isinstance(v, ast.Call) and pf.dotted(v.func) in ('StringIO', 'io.StringIO') and not v.args:
                 self.buf = tgt
+            elif pf.single_def(fn, tgt) is v and not isinstance(v, ast.Dict) and not any(
+                    isinstance(x, ast.Name) and x.id == tgt for x in ast.walk(self.loop)) and not any(
+                    isinstance(x, (ast.Await, ast.Yield, ast.YieldFrom, ast.NamedExpr)) for x in ast.walk(v)):
+                continue  # a single-assignment local used by the tests in front of the loop only: substituted where it is used
             elif isinstance(v, ast.Dict):
                 d = {}
                 for k, val in zip(v.keys, v.values):
@@ -619,6 +681,90 @@ class EscapeStr:
                 raise AnalysisError(f'{self.m.rel}::escape_str: a constant output for a multi-character range {lo:#x}-{hi:#x}')
             else:
                 out.append(Unit(lo, hi, parts))
+        return out
+
+    def exits(self, backticked: bool) -> List[Tuple[Optional[R.Lang], str, List[str], int]]:
+        """The exits of escape_str(s, backticked) as a decision list over s: [(guard, kind, path, line)], kind 'identity' (an early
+        `return s` in front of the loop: the string is emitted as it is) or 'loop' (the per-character table of units()); guard None = every
+        string.  The tests in front of the loop are turned into exact regular languages of s with `backticked` replaced by its value;
+        unreachable exits are dropped."""
+        if not self.pre:
+            return [(None, 'loop', [], self.loop.lineno)]
+        where = f'{self.m.rel}::escape_str'
+        param, flagname = 's', 'backticked'
+        out: List[Tuple[Optional[R.Lang], str, List[str], int]] = []
+        fn, m = self.fn, self.m
+
+        class _Flag(ast.NodeTransformer):
+            def visit_Name(self, node: ast.Name):  # noqa: N802
+                if node.id == flagname and isinstance(node.ctx, ast.Load):
+                    return ast.copy_location(ast.Constant(value=backticked), node)
+                return node
+
+            def visit_Compare(self, node: ast.Compare):  # noqa: N802
+                # `backticked is True` / `backticked == False` ...
+                if len(node.ops) == 1 and isinstance(node.left, ast.Name) and node.left.id == flagname and isinstance(node.comparators[0], ast.Constant) \
+                        and isinstance(node.comparators[0].value, bool) and isinstance(node.ops[0], (ast.Is, ast.IsNot, ast.Eq, ast.NotEq)):
+                    v = (backticked == node.comparators[0].value) == isinstance(node.ops[0], (ast.Is, ast.Eq))
+                    return ast.copy_location(ast.Constant(value=v), node)
+                return self.generic_visit(node)
+
+            def visit_UnaryOp(self, node: ast.UnaryOp):  # noqa: N802
+                node = self.generic_visit(node)  # type: ignore[assignment]
+                if isinstance(node.op, ast.Not) and isinstance(node.operand, ast.Constant) and isinstance(node.operand.value, bool):
+                    return ast.copy_location(ast.Constant(value=not node.operand.value), node)
+                return node
+
+            def visit_IfExp(self, node: ast.IfExp):  # noqa: N802
+                node = self.generic_visit(node)  # type: ignore[assignment]
+                if isinstance(node.test, ast.Constant) and isinstance(node.test.value, bool):
+                    return node.body if node.test.value else node.orelse
+                return node
+
+        def lang_of(test: ast.AST) -> R.Lang:
+            import copy
+            t = _Flag().visit(copy.deepcopy(pf.expand_locals(fn, test)))
+            ast.fix_missing_locations(t)
+            return _Cond(m, fn, param).cond(t)
+
+        def walk(stmts: Sequence[ast.stmt], reach: R.Lang, path: List[str]) -> Optional[R.Lang]:
+            path = list(path)
+            for st in stmts:
+                if isinstance(st, (ast.Pass,)) or (isinstance(st, ast.Expr) and isinstance(st.value, ast.Constant)):
+                    continue
+                if isinstance(st, ast.If):
+                    T = lang_of(st.test)
+                    src = pf.nsrc(st.test)
+                    a = walk(st.body, reach & T, path + [src])
+                    b = walk(st.orelse, reach & ~T, path + [f'not ({src})'])
+                    if a is None and b is None:
+                        return None
+                    if a is None:
+                        reach = b  # type: ignore[assignment]
+                        path.append(f'not ({src})')
+                    elif b is None:
+                        reach = a
+                        path.append(src)
+                    else:
+                        reach = a | b
+                    continue
+                if isinstance(st, ast.Return) and st.value is not None:
+                    v = pf.expand_locals(fn, st.value)
+                    if isinstance(v, ast.Call) and pf.dotted(v.func) == 'str' and len(v.args) == 1 and not v.keywords:
+                        v = v.args[0]
+                    if not (isinstance(v, ast.Name) and v.id == param):
+                        raise AnalysisError(f'{where}: early exit `{pf.nsrc(st)[:60]}` in front of the loop does not return the string itself; not modelled')
+                    if R.shortest(reach) is not None:
+                        out.append((reach, 'identity', path, st.lineno))
+                    return None
+                raise AnalysisError(f'{where}: unrecognised statement before the loop `{pf.nsrc(st)[:60]}`')
+            return reach
+
+        rest = walk(self.pre, R.everything(), [])
+        if rest is not None and R.shortest(rest) is not None:
+            out.append((rest if out else None, 'loop', [] if not out else [f'not ({" or ".join(" and ".join(p_) for _g, _k, p_, _l in out)})'], self.loop.lineno))
+        if not out:
+            raise AnalysisError(f'{where}: no string reaches the loop or an exit')
         return out
 
     def _fail(self, e: ast.AST):
@@ -3146,6 +3292,7 @@ def _run_lexical(ctx: Ctx, state: Dict[str, Any]) -> None:
                'bottom-up; a rule without a visit method yields no value')
     mj, mm, mt, mg = pf.load(F_JAVA), pf.load(F_MISC), pf.load(F_TYPES), pf.load(F_GRAMMAR)
     ctx.unit('files', 6)
+    deferred_lex: List[str] = []   # parts that could not be decided; the rest of the section still runs, the run ends as an analysis error
 
     # ------------------------------------------------------------------ extraction
     identity_table = [Unit(0, R.MAXCP, [('self',)])]
@@ -3195,10 +3342,33 @@ def _run_lexical(ctx: Ctx, state: Dict[str, Any]) -> None:
     delim_id = eid.escaped[0].delim
     es = EscapeStr(ctx, mm)
     es_tables: Dict[bool, List[Unit]] = {}
+    expanded: List[Branch] = []
+
+    def escape_str_branches(flag: bool, base: Optional[Branch]) -> List[Branch]:
+        """escape_str(s, flag) as a decision list: one Branch per exit (an early `return s` in front of the loop emits the string as it is),
+        restricted to the names that reach `base` (None: every string)."""
+        if flag not in es_tables:
+            es_tables[flag] = es.units(flag)
+        res: List[Branch] = []
+        for g, kind, path_, line_ in es.exits(flag):
+            guard = base.guard if g is None and base is not None else (R.everything() if g is None else g if base is None else base.guard & g)
+            if R.shortest(guard) is None:
+                continue
+            nb = Branch(guard, base.value if base is not None else ast.Constant(value=None), line_ if kind == 'identity' or base is None else base.line,
+                        (list(base.path) if base is not None else []) + [f'escape_str: {x}' for x in path_])
+            nb.kind, nb.delim, nb.inner = 'escaped', (base.delim if base is not None else '"'), (base.inner if base is not None else None)
+            if kind == 'identity':
+                nb.transform, nb.units = 'identity', list(identity_table)
+            else:
+                nb.transform, nb.units = f'escape_str(backticked={flag})', list(es_tables[flag])
+            res.append(nb)
+        return res
+
     for b_ in eid.escaped:
         inner_id = b_.inner
         if is_param(inner_id, eid):
             b_.transform, b_.units = 'identity', list(identity_table)
+            expanded.append(b_)
             continue
         flag: Optional[bool] = None
         if isinstance(inner_id, ast.Call) and pf.dotted(inner_id.func) == 'escape_str' and 1 <= len(inner_id.args) + len(inner_id.keywords) <= 2 \
@@ -3209,13 +3379,22 @@ def _run_lexical(ctx: Ctx, state: Dict[str, Any]) -> None:
             elif len(extra_) == 1 and isinstance(extra_[0], ast.Constant) and isinstance(extra_[0].value, bool):
                 flag = extra_[0].value
         ctx.need(flag is not None, f'{F_MISC}::escape_id: escaped form is not `escape_str(s, backticked=True)` ({pf.nsrc(inner_id)})')
-        if flag not in es_tables:
-            es_tables[flag] = es.units(flag)  # type: ignore[index]
-        b_.transform, b_.units = f'escape_str(backticked={flag})', list(es_tables[flag])  # type: ignore[index]
+        expanded += escape_str_branches(flag, b_)  # type: ignore[arg-type]
+    eid.escaped = expanded
     ctx.need(sp.module_bindings(mm, 'escape_str') and len(sp.module_bindings(mm, 'escape_str')) == 1, f'{F_MISC}: escape_str is not bound exactly once')
     eid_primary = finish(eid)
     units_id = eid_primary.units
-    units_str = es_tables[False] if False in es_tables else es.units(False)
+    # parsable_strings: every string goes through escape_str(s) (backticked=False)
+    str_branches = escape_str_branches(False, None)
+    for b_ in str_branches:
+        b_.chars = occurring_chars(b_.guard)
+        b_.units = restrict_units(b_.units, b_.chars)
+    str_rew = [b_ for b_ in str_branches if b_.transform != 'identity']
+    ctx.need(len(str_rew) == 1, f'{F_MISC}::escape_str: no string reaches the character loop')
+    str_primary = str_rew[0]
+    for b_ in str_branches:
+        b_.label = '' if b_ is str_primary else f' [when {b_.when()}]'
+    units_str = str_primary.units
     # parsable_strings: '"' + escape_str(s) + '"'
     ps = mm.func('parsable_strings')
     ps_ok = any(isinstance(n, ast.JoinedStr) and len(n.values) == 3 and pf.const_str(n.values[0]) == '"' and pf.const_str(n.values[2]) == '"'
@@ -3282,8 +3461,12 @@ def _run_lexical(ctx: Ctx, state: Dict[str, Any]) -> None:
                                              'escape_id (escape_str, backticked=True)' if b_ is eid_primary else f'escape_id ({b_.transform}, when {b_.when()})')
     acc_id = acc_of[id(eid_primary)]
     L_dq = scala_quoted_language('"', lex['escape_chars'], 'IRLexer.stringLiteral')
-    acc_str = check_units_against(ctx, 'R2', f'{F_MISC}::parsable_strings -> IRLexer.stringLiteral', units_str, '"', L_dq,
-                                  f'IRLexer.quotedLiteral(\'"\') (escapeChars {lex["literal"]})', None, mm.path, ps.lineno, 'parsable_strings (escape_str)')
+    for b_ in str_branches:
+        acc_of[id(b_)] = check_units_against(ctx, 'R2', f'{F_MISC}::parsable_strings{b_.label} -> IRLexer.stringLiteral', b_.units, '"', L_dq,
+                                             f'IRLexer.quotedLiteral(\'"\') (escapeChars {lex["literal"]})', None if not es.pre else b_.guard, mm.path,
+                                             ps.lineno if b_ is str_primary else b_.line,
+                                             'parsable_strings (escape_str)' if b_ is str_primary else f'parsable_strings (escape_str: {b_.transform}, when {b_.when()})')
+    acc_str = acc_of[id(str_primary)]
 
     # whole languages (all combinations of accepted units; exact for an exit that emits the name as it is: delimiter + its guard + delimiter)
     def whole(b_: Optional[Branch], units: List[Unit], dl: str, acc: Dict[str, bool], label: str) -> R.Lang:
@@ -3296,9 +3479,10 @@ def _run_lexical(ctx: Ctx, state: Dict[str, Any]) -> None:
         w = R.included(whole(b_, b_.units, delim_id, acc_of[id(b_)], 'escape_id'), L_backtick)
         ctx.check(w is None, 'R2', f'{F_MISC}::escape_id{b_.label}::all combinations of accepted units',
                   f'units are accepted one by one but the combination {_show(w)} is not', mm.path, 0)
-    w = R.included(whole(None, units_str, '"', acc_str, 'parsable_strings'), L_dq)
-    ctx.check(w is None, 'R2', f'{F_MISC}::parsable_strings::all combinations of accepted units',
-              f'units are accepted one by one but the combination {_show(w)} is not', mm.path, 0)
+    for b_ in str_branches:
+        w = R.included(whole(b_ if es.pre else None, b_.units, '"', acc_of[id(b_)], 'parsable_strings'), L_dq)
+        ctx.check(w is None, 'R2', f'{F_MISC}::parsable_strings{b_.label}::all combinations of accepted units',
+                  f'units are accepted one by one but the combination {_show(w)} is not', mm.path, 0)
     for b_ in esc.escaped:
         w = R.included(whole(b_, b_.units, delim, acc_of[id(b_)], 'escape_parsable'), L_backtick)
         ctx.check(w is None, 'R2', f'{F_JAVA}::escape_parsable{b_.label}::all combinations of accepted units',
@@ -3333,28 +3517,102 @@ def _run_lexical(ctx: Ctx, state: Dict[str, Any]) -> None:
         decode_check('escape_parsable' + b_.label, F_JAVA, mj.path, esc.test_line if b_ is esc_primary else b_.line, b_.units, delim, acc_of[id(b_)])
     for b_ in eid.escaped:
         decode_check('escape_id' + b_.label, F_MISC, mm.path, es.loop.lineno if b_ is eid_primary else b_.line, b_.units, delim_id, acc_of[id(b_)])
-    decode_check('parsable_strings', F_MISC, mm.path, es.loop.lineno, units_str, '"', acc_str)
+    for b_ in str_branches:
+        decode_check('parsable_strings' + b_.label, F_MISC, mm.path, es.loop.lineno if b_ is str_primary else b_.line, b_.units, '"', acc_of[id(b_)])
 
     # ------------------------------------------------------------------ R3
+    # unescape_parsable must give back every character from the text escape_parsable prints for it, whatever follows: decided unit kind by
+    # unit kind on the decoder read as a chain of symbolic transducers (engines/c31decode.py; ordered regex matching and the replacement
+    # function are evaluated on symbolic unit texts with explicit case splits, the unicode_escape codec is modelled natively)
     une = mj.func('unescape_parsable')
-    up = [a.arg for a in une.args.args]
-    ubody = [s for s in une.body if not (isinstance(s, ast.Expr) and isinstance(s.value, ast.Constant))]
-    ctx.need(len(up) == 1 and len(ubody) == 1 and isinstance(ubody[0], ast.Return) and ubody[0].value is not None, f'{F_JAVA}::unescape_parsable: unrecognised body')
-    uops = _pipeline(ctx, mj, une, ubody[0].value, up[0])  # type: ignore[arg-type]
-
-    def inverse(op: tuple) -> tuple:
-        if op[0] == 'encode':
-            return ('decode', op[1])
-        if op[0] == 'decode':
-            return ('encode', op[1])
-        return ('replace', op[2], op[1])
-    want = [inverse(op) for op in reversed(ops)]
-    ctx.check(uops == want, 'R3', f'{F_JAVA}::unescape_parsable::mirror of escape_parsable',
-              f'escape_parsable applies {ops}; its inverse is {want}, but unescape_parsable applies {uops}: a printed name does not come back unchanged '
-              f'(e.g. a name containing {delim!r} or a backslash)', mj.path, une.lineno, detail={'escape': [list(o) for o in ops], 'unescape': [list(o) for o in uops]})
+    mirror_ok = True
+    undecided: List[str] = []
+    try:
+        early: List[ast.If] = []
+        stages, usummary = D.decoder_stages(mj, une, early)
+        ctx.unit('decoder_stages', len(stages))
+        # early exits `if <test on the text>: return <the text>`: exact languages of the texts (between the delimiters) that take them
+        uparam = une.args.args[0].arg
+        fall = R.everything()
+        exits_u: List[Tuple[R.Lang, ast.If]] = []
+        for st_ in early:
+            T_ = _Cond(mj, une, uparam).cond(pf.expand_locals(une, st_.test))
+            exits_u.append((fall & T_, st_))
+            fall = fall & ~T_
+        for b_ in esc.escaped:
+            flat_b = split_by_width(b_.units)
+            # a text returned as it is must not contain a rewritten character
+            rewritten_u = [u for u in flat_b if not (len(u.parts) == 1 and u.parts[0][0] == 'self')]
+            for reach_, st_ in exits_u:
+                cons = f'{F_JAVA}::unescape_parsable{b_.label}::early exit `{pf.nsrc(st_.test)[:60]}` returns only texts without escapes'
+                if not rewritten_u:
+                    ctx.ok('R3', cons, 'this exit of escape_parsable rewrites nothing', nontrivial=False)
+                    continue
+                allu = R.alt(*[u.regex() for u in flat_b])
+                with_esc = R.lang(R.seq(R.star(allu), R.alt(*[u.regex() for u in rewritten_u]), R.star(allu)), 'printed texts that contain an escape')
+                hit = None
+                for w_ in R.enumerate_shortest(reach_ & with_esc, 24):
+                    nm_ = decode_with(flat_b, w_)
+                    if nm_ is not None and nm_ != w_ and R.accepts(b_.guard, nm_):
+                        hit = (nm_, w_)
+                        break
+                if hit is None and R.shortest(reach_ & with_esc) is not None:
+                    undecided.append(f'{cons}: texts such as {ascii(R.shortest(reach_ & with_esc))} take the exit but no printed name was found that produces one')
+                    continue
+                ctx.check(hit is None, 'R3', cons, f'unescape_parsable returns the text unchanged when `{pf.nsrc(st_.test)[:80]}`, but escape_parsable prints the name '
+                          f'{ascii(hit[0]) if hit else ""} as {ascii(delim + (hit[1] if hit else "") + delim)}, whose text between the delimiters takes that exit although it '
+                          f'contains an escape: the name comes back as {ascii(hit[1]) if hit else ""}, so parsing the printed type yields a different type', mj.path, st_.lineno)
+            dunits = [D.UnitText(u.lo, u.hi, u.parts, u.kind()) for u in flat_b]
+            an = D.Analysis(dunits, stages)
+            kinds: Dict[str, List[Any]] = {}
+            for u, du in zip(flat_b, dunits):
+                kinds.setdefault(u.kind(), []).append((u, du))
+            for kind, pairs in kinds.items():
+                cons = f'{F_JAVA}::unescape_parsable{b_.label}::unit {kind} comes back as the same character'
+                worst = None
+                n_cases = 0
+                for u, du in pairs:
+                    v = an.verdict(du)
+                    n_cases += v.cases
+                    if v.status == 'bad' or (v.status == 'unknown' and worst is None):
+                        worst = (u, du, v)
+                        if v.status == 'bad':
+                            break
+                if worst is None:
+                    ctx.ok('R3', cons, {'code_points': sum(u.hi - u.lo + 1 for u, _du in pairs), 'cases': n_cases, 'decoder': [list(map(str, o)) for o in usummary]})
+                    continue
+                u, du, v = worst
+                if v.status == 'unknown':
+                    undecided.append(f'{cons}: {v.message}')
+                    continue
+                mirror_ok = False
+                piece = chr(v.cp) + v.follow  # type: ignore[arg-type]
+                nm = R.shortest(b_.guard & R.lang(R.seq(R.star(R.anychar()), R.lit(piece), R.star(R.anychar())), 'contains the witness'))
+                if nm is not None and exits_u and not R.accepts(fall, encode_with(flat_b, nm)):
+                    # the witness must reach the decoding chain, not an early exit
+                    nm = None
+                    for cand_ in R.enumerate_shortest(b_.guard & R.lang(R.seq(R.star(R.anychar()), R.lit(piece), R.star(R.anychar())), 'contains the witness'), 40):
+                        if R.accepts(fall, encode_with(flat_b, cand_)):
+                            nm = cand_
+                            break
+                if nm is None:
+                    undecided.append(f'{cons}: no printed name that reaches the decoding chain contains the witness {ascii(piece)}')
+                    continue
+                printed_nm = delim + encode_with(flat_b, nm) + delim
+                eaten = v.follow[:v.swallowed]
+                back = 'an exception is raised' if v.got is None else (f'{ascii(du.text_of(v.cp) + encode_with(flat_b, eaten))} is read back as {ascii(v.got)}, '  # type: ignore[arg-type]
+                                                                       f'not {ascii(chr(v.cp) + eaten)}')  # type: ignore[arg-type]
+                ctx.bad('R3', cons, f'escape_parsable prints U+{v.cp:04X} as {ascii(du.text_of(v.cp))} ({u.hi - u.lo + 1} code point(s) U+{u.lo:04X}..U+{u.hi:04X} are printed as {kind!r}), '  # type: ignore[arg-type]
+                                    f'but unescape_parsable does not undo it: {v.message}; {back}. The name {ascii(nm)} is printed as {ascii(printed_nm)} and does not come back '
+                                    f'unchanged, so parsing the printed type yields a different type', mj.path, une.lineno,
+                        extra={'decoder': [list(map(str, o)) for o in usummary], 'witness_code_point': v.cp, 'follow': v.follow})
+    except AnalysisError as e:
+        undecided.append(str(e))
+    if undecided:
+        deferred_lex.append(' | '.join(undecided))
     # the visitor strips exactly the delimiters (decided on the language of the printed names, see check_identifier_visitors)
     vis = flat_class(mg, mg.cls('TypeConstructor'))
-    check_identifier_visitors(ctx, mg, vis, esc, delim, uops == want)
+    check_identifier_visitors(ctx, mg, vis, esc, delim, mirror_ok)
     ctx.need(sp.imports_of(mg).get('unescape_parsable', '').endswith('utils.java.unescape_parsable'), f'{F_GRAMMAR}: unescape_parsable is not imported from hail.utils.java')
     ctx.need(sp.imports_of(mt).get('escape_parsable', '').endswith('utils.java.escape_parsable'), f'{F_TYPES}: escape_parsable is not imported from utils.java')
     # every name printed goes through escape_parsable
@@ -3584,3 +3842,5 @@ def _run_lexical(ctx: Ctx, state: Dict[str, Any]) -> None:
                 problems.append(f'the arm `case "{kw}"` never consumes {ch!r}')
         ctx.check(not problems, 'R6', cons, f'{cname}._parsable_string() prints e.g. {text!r}: ' + '; '.join(problems), mt.path, meth.lineno,
                   detail={'keyword': kw, 'punctuation': ''.join(dict.fromkeys(puncts))})
+    if deferred_lex:
+        raise AnalysisError(' | '.join(deferred_lex))
